@@ -35,6 +35,9 @@ const prelude = `(set-logic ALL)
 (assert (forall ((s Str) (i Int) (j Int)) (! (=> (and (<= 0 i) (<= i j) (<= j (slen s))) (= (slen (ssub s i j)) (- j i))) :pattern ((ssub s i j)))))
 (assert (forall ((s Str) (i Int) (j Int)) (! (=> (and (= i 0) (= j (slen s))) (= (ssub s i j) s)) :pattern ((ssub s i j)))))
 (assert (forall ((a Str) (b Str)) (! (= (slen (scat a b)) (+ (slen a) (slen b))) :pattern ((scat a b)))))
+(assert (forall ((a Str) (b Str) (c Str)) (! (= (scat (scat a b) c) (scat a (scat b c))) :pattern ((scat (scat a b) c)))))
+(assert (forall ((a Str)) (! (= (scat sempty a) a) :pattern ((scat sempty a)))))
+(assert (forall ((a Str)) (! (= (scat a sempty) a) :pattern ((scat a sempty)))))
 (assert (forall ((s Str) (i Int) (j Int) (a Int) (b Int)) (! (=> (and (<= 0 i) (<= i j) (<= j (slen s)) (<= 0 a) (<= a b) (<= b (- j i))) (= (ssub (ssub s i j) a b) (ssub s (+ i a) (+ i b)))) :pattern ((ssub (ssub s i j) a b)))))
 (assert (forall ((s Str) (i Int)) (! (and (<= 0 (sat s i)) (<= (sat s i) 255)) :pattern ((sat s i)))))
 `
